@@ -1,6 +1,7 @@
 package scn
 
 import (
+	"sync"
 	"errors"
 	"fmt"
 	"math/rand"
@@ -464,4 +465,88 @@ func RunHistory(h History, r *rand.Rand) (events []interface{}) {
 		b.Execute(r)
 	}
 	return env.Events
+}
+
+// ---------------------------------------------------------------- concurrent calls on shared objects
+
+// ConcConfig says what the goroutines of a concurrent run share.
+type ConcConfig struct {
+	G           int  `json:"g"`
+	ShareTarget bool `json:"shareTarget"`
+	ShareOpts   bool `json:"shareOpts"`
+}
+
+// RunConcurrent lets G goroutines perform the call of scenario s at the same time.  Converters are always
+// shared (one set of *Func objects); the target and the option values are shared or per goroutine as the
+// configuration says.  Goroutine k is reported as phase k of one scenario execution; gid maps the calling
+// goroutine to its number (the harness's goroutine-id trick lives in the driver).
+func RunConcurrent(s Scenario, c ConcConfig, r *rand.Rand, gid func() int, register func(k int)) []interface{} {
+	s.Normalize()
+	s.Mode = "call"
+	s.NDef = 0
+	reset := EvReset{Ev: "reset", Sid: s.Sid, Scn: s}
+	b, err := Instantiate(s, r)
+	if err != nil {
+		ret := emptyRet("builderr", 1)
+		ret.Detail = firstLine(err.Error())
+		return []interface{}{reset, ret}
+	}
+	env := b.Env
+	env.PhaseOf = gid
+	vals := make([]interface{}, len(s.Inputs))
+	for j, l := range s.Inputs {
+		vals[j] = MkValue(l.Type, b.Toks[j]).Interface()
+	}
+	mkOpts := func() []am.Arg {
+		var out []am.Arg
+		for j, l := range s.Inputs {
+			out = append(out, apiArg(l, vals[j], 1)) // variant 1: NamedSubtype / TypedSubtype spellings
+		}
+		return append(out, b.CnvArgs...)
+	}
+	sharedOpts := mkOpts()
+	targets := make([]*am.Func, c.G+1)
+	opts := make([][]am.Arg, c.G+1)
+	for k := 1; k <= c.G; k++ {
+		targets[k] = b.Target
+		if !c.ShareTarget {
+			if targets[k], err = env.Build(0, s.Target); err != nil {
+				ret := emptyRet("builderr", 1)
+				return []interface{}{reset, ret}
+			}
+		}
+		opts[k] = sharedOpts
+		if !c.ShareOpts {
+			opts[k] = mkOpts()
+		}
+	}
+	rets := make([]EvRet, c.G+1)
+	var wg sync.WaitGroup
+	start := make(chan struct{})
+	for k := 1; k <= c.G; k++ {
+		wg.Add(1)
+		go func(k int) {
+			defer wg.Done()
+			register(k)
+			defer func() {
+				if p := recover(); p != nil {
+					rets[k] = emptyRet("panic", k)
+					rets[k].Detail = firstLine(fmt.Sprint(p))
+				}
+			}()
+			<-start
+			res := targets[k].Call(opts[k]...)
+			env.mu.Lock()
+			rets[k] = b.classify(res, k)
+			env.mu.Unlock()
+		}(k)
+	}
+	close(start)
+	wg.Wait()
+	env.PhaseOf = nil
+	evs := append([]interface{}{reset}, env.Events...)
+	for k := 1; k <= c.G; k++ {
+		evs = append(evs, rets[k])
+	}
+	return evs
 }
